@@ -18,7 +18,8 @@
    written: the generator's intended tree carries the promotions), parser and checker themselves. *)
 From V Require Import Lang.RefSem Lang.Codegen Lang.Vm Lang.Observe Lang.Wt Lang.Expand
   Proofs.C01Sim Proofs.C01Expr Proofs.C01Flags Proofs.C01Witness
-  Proofs.C01Store Proofs.C01Gen Proofs.C01Cases Proofs.C01Stmt Proofs.C01Simple Proofs.C01Line Proofs.C01Expand.
+  Proofs.C01Store Proofs.C01Gen Proofs.C01Cases Proofs.C01Stmt Proofs.C01Simple Proofs.C01Line Proofs.C01Expand
+  Lang.CapType Proofs.CapTypeProofs.
 Local Open Scope Z_scope.
 
 (* ---- stage (a) ---- *)
@@ -218,6 +219,43 @@ Proof.
   exists wit_env, wit_prog, [102%N], [[120%N]]. vm_compute. repeat split; discriminate.
 Qed.
 
+(* ---- the type of a capture group (Lang/CapType.v) ---- *)
+
+(* The reference's rule (docs/Language.md: a group that can only match digits is
+   an integer, one that only matches floating point numbers is a float, anything
+   else a string), decided on the group's regular expression by cap_spec, is
+   sound for EVERY regular expression and EVERY string of its language: a group
+   the reference types Int matches only optionally signed runs of digits, one it
+   types Float only decimal floating point numerals (the strings whose
+   conversion cannot fail for a syntactic reason). *)
+Theorem C01_capref_spec_sound :
+  forall (r : re) (w : list N), matches r w ->
+    (cap_spec r = TInt -> int_shape w = true) /\
+    (cap_spec r = TFloat -> float_shape w = true).
+Proof. exact cap_spec_sound. Qed.
+
+(* The compiler's inference (infer_top: faithful model of types.InferCaprefType,
+   compared with the real checker on every generated group) guarantees the
+   character half of this: a group it types Int (Float) matches only strings
+   over "+-0123456789" ("+-0123456789.eE"); a group that can match any other
+   character is a String and keeps its text. *)
+Theorem C01_capref_type_alphabet :
+  forall (r : re) (w : list N), matches r w ->
+    (infer_top r = TInt -> Forall (fun c => int_char c = true) w) /\
+    (infer_top r = TFloat -> Forall (fun c => float_char c = true) w).
+Proof. exact infer_alphabet. Qed.
+
+(* FULL STATEMENT (what C01 demands of the inference), FALSE of the faithful model:
+     forall r w, matches r w ->
+       (infer_top r = TInt -> int_shape w = true) /\ (infer_top r = TFloat -> float_shape w = true).
+   \d* is typed Int and matches the empty string, [0-9.]+ is typed Float and
+   matches "." and "1.2.3": the conversion the compiler emits fails on them and
+   the rest of the line is lost (known findings c01/capref-type/wrong-shape/...). *)
+Theorem C01_capref_type_sound_refuted :
+  (exists r w, matches r w /\ infer_top r = TInt /\ int_shape w = false) /\
+  (exists r w, matches r w /\ infer_top r = TFloat /\ float_shape w = false).
+Proof. split; [exact infer_int_unsound | exact infer_float_unsound]. Qed.
+
 (* ---- what is claimed ---- *)
 
 Theorem C01_compile_correct_partial :
@@ -245,6 +283,23 @@ Example C01_flags_nonvacuous :
   /\ scoped_otherwise wit_prog = false.
 Proof. split; reflexivity. Qed.
 
+(* [0-9./]+ (one range '.'..'9', which contains '/'), \d+ and \d+\.\d+ *)
+Example C01_capref_nonvacuous :
+  let ip := RPlus (RClass [(46, 57)])%N in
+  let int := RPlus (RClass [(48, 57)])%N in
+  let flt := RCat (RCons int (RCons (RLit false [46%N]) (RCons int RNil))) in
+  cap_spec ip = TStr /\ infer_top ip = TStr /\ matches ip ([49] ++ [47] ++ [56] ++ [])%N /\
+  cap_spec int = TInt /\ infer_top int = TInt /\ matches int ([52] ++ [50] ++ [])%N /\
+  cap_spec flt = TFloat /\ infer_top flt = TFloat.
+Proof.
+  cbv zeta. repeat split; try reflexivity.
+  - apply MPlus; [apply (MClass _ 46 57 49)%N; [left; reflexivity | lia | lia]|].
+    apply MStarS; [apply (MClass _ 46 57 47)%N; [left; reflexivity | lia | lia]|].
+    apply MStarS; [apply (MClass _ 46 57 56)%N; [left; reflexivity | lia | lia]|]. constructor.
+  - apply MPlus; [apply (MClass _ 48 57 52)%N; [left; reflexivity | lia | lia]|].
+    apply MStarS; [apply (MClass _ 48 57 50)%N; [left; reflexivity | lia | lia]|]. constructor.
+Qed.
+
 Print Assumptions C01_expr_pure.
 Print Assumptions C01_expr_all.
 Print Assumptions C01_expr_logic.
@@ -262,3 +317,7 @@ Print Assumptions C01_otherwise_else_refuted.
 Print Assumptions C01_compile_correct_partial.
 Print Assumptions C01_expr_pure_nonvacuous.
 Print Assumptions C01_flags_nonvacuous.
+Print Assumptions C01_capref_spec_sound.
+Print Assumptions C01_capref_type_alphabet.
+Print Assumptions C01_capref_type_sound_refuted.
+Print Assumptions C01_capref_nonvacuous.
